@@ -11,6 +11,8 @@ for l in open(sys.argv[1]):
 n = 0
 for vf in sorted(glob.glob(ROOT + '/*/out/m*.validated.json')):
     out = os.path.dirname(vf); pid = out.split('/')[-2]; k = os.path.basename(vf).split('.')[0]
+    if (pid, k) not in matrix:
+        continue  # not part of the round being installed
     v = json.load(open(vf))
     if not all([v['builds'], v['suite_passes_with_mutant'], v['demo_fails_with_mutant'], v['demo_passes_without_mutant']]):
         print('skip (not validated):', pid, k, v); continue
